@@ -66,6 +66,7 @@ class World:
         self.stepinfo = {}  # id(el) -> {"deps": {id(dep): gen}, "desc": desc, "objmap": objmap}
         self.counter = itertools.count(1)
         self.hist = []
+        self.numeric = False
         # repeated compilations of one history use the same configuration (a memo of compiled
         # functions would be hit)
         self.compact = rng.choice((0, 0, 1, 2))
@@ -112,6 +113,18 @@ class World:
     def op_init(self, el):
         el.init_vars(engine=self.eng)
         self.gen[id(el)] = next(self.counter)
+
+    def op_init_numeric(self, el):
+        """First initialisation with the element's STATES held at numbers (casadi.DM: a boundary link kept at measured
+        conditions); its actions / disturbances are created as symbols.  An element is as uninitialised / unstepped as any
+        other afterwards; only the size and value comparisons are left out for such worlds."""
+        if id(el) in self.gen or not el._states:
+            return self.op_init(el)
+        n_ = getattr(el, "N", 1) if isinstance(el, self.M.Link) else 1
+        ic = {nm: cs.DM([self.rng.uniform(5.0, 60.0) for _ in range(n_)]) for nm in sorted(el._states)}
+        el.init_vars(init_conditions=ic, engine=self.eng)
+        self.gen[id(el)] = next(self.counter)
+        self.numeric = True
 
     def op_reinit_same(self, el):
         if id(el) not in self.gen:
@@ -229,8 +242,12 @@ def observe_compile(W_, rec, ctxhist):
         rec.violation(f"{PROP}:compile raised {type(err).__name__} on a fully initialised and stepped network", dict(ctx, exception=repr(err)[:300]))
         return
     rec.count("functions_as_expected")
+    if W_.numeric:
+        rec.count("functions_of_worlds_with_numeric_states")
     if F.get_free():
         rec.violation(f"{PROP}:compiled function has free symbols", dict(ctx, free=str(F.get_free())))
+        return
+    if W_.numeric:
         return
     # at every level the function takes exactly the network's current variables and returns its successors
     n_in_exp = sum((x.numel() if hasattr(x, "numel") else np.size(x))
@@ -301,19 +318,21 @@ def observe_compile(W_, rec, ctxhist):
                     return
 
 
-OPS = ("init", "init", "reinit_same", "stepel", "stepel", "netstep", "netstep", "netstep_alt", "compile", "compile", "compile",
+OPS = ("init", "init", "init_numeric", "reinit_same", "stepel", "stepel", "netstep", "netstep", "netstep_alt", "compile", "compile", "compile",
        "add_branch", "add_ramp", "replace_origin", "replace_link", "replace_dest", "replace_branch_dest", "replace_dest_user", "replace_origin_user")
 
 
 def apply(W_, rec, op, arg=None):
     els = W_.elements()
     lab = op
-    if op in ("init", "reinit_same", "stepel"):
+    if op in ("init", "init_numeric", "reinit_same", "stepel"):
         el = els[arg % len(els)] if arg is not None else W_.rng.choice(els)
         lab = f"{op}({el.name})"
         W_.hist.append(lab)
         if op == "init":
             W_.op_init(el)
+        elif op == "init_numeric":
+            W_.op_init_numeric(el)
         elif op == "reinit_same":
             W_.op_reinit_same(el)
         else:
@@ -371,6 +390,12 @@ def run(M, rec, tier, seed, k, n):
         [("replace_origin_user", None), ("netstep", None), ("compile", None)],
         [("replace_dest_user", None), ("netstep", None), ("stepel", 4), ("compile", None)],
         [("add_branch", None), ("netstep", None), ("replace_branch_dest", None), ("init", 7), ("stepel", 2), ("compile", None)],
+        # elements whose states are held at numbers: as unready as any other until stepped
+        [("init_numeric", 0), ("init", 1), ("init", 2), ("init", 3), ("init", 4), ("stepel", 1), ("stepel", 2), ("stepel", 3), ("compile", None)],
+        [("netstep", None), ("add_ramp", None), ("init_numeric", 4), ("compile", None)],
+        [("init_numeric", 0), ("init", 1), ("init_numeric", 2), ("init", 3), ("init", 4), ("stepel", 0), ("stepel", 1), ("stepel", 2), ("stepel", 3),
+         ("stepel", 4), ("compile", None)],
+        [("netstep", None), ("replace_link", None), ("init_numeric", 0), ("compile", None)],
     ]
     for j, seq in enumerate(scripted):
         for st in ("SX", "MX"):
@@ -383,7 +408,7 @@ def run(M, rec, tier, seed, k, n):
                         break
                 rec.count("scripted_histories")
     # exhaustive short histories over a reduced alphabet, ending with compile
-    small = [("netstep", None), ("init", 0), ("init", 1), ("init", 4), ("stepel", 0), ("stepel", 1), ("stepel", 3),
+    small = [("netstep", None), ("init", 0), ("init", 1), ("init", 4), ("init_numeric", 1), ("stepel", 0), ("stepel", 1), ("stepel", 3),
              ("add_ramp", None), ("replace_origin", None), ("add_branch", None), ("replace_link", None), ("reinit_same", 0),
              ("replace_branch_dest", None), ("replace_dest", None)]
     depth = 3 if tier == "quick" else 4
